@@ -22,7 +22,11 @@ MIX = {"sub": (-8, 3, (72, -70)), "mul": (-8, 2, (72, -70)), "div": (-8, 2, (72,
 MIX_SHAPES = [(2, 1), (3, 1)]
 OPS_INCDEC = {"preinc": "++%s", "predec": "--%s", "postinc": "%s++", "postdec": "%s--"}
 OPS_FETCH = {"fadd": "atomic_fetch_add", "fsub": "atomic_fetch_sub", "for": "atomic_fetch_or", "fxor": "atomic_fetch_xor", "fand": "atomic_fetch_and"}
-OPS_OTHER = ["xchg", "cas", "casw", "casinc", "lock"]
+OPS_OTHER = ["xchg", "cas", "casw", "casinc", "lock", "casx", "casro"]
+# casx : compare-exchange whose `expected` is a SHARED object (xe): thread 0 hands the object over with
+#        CAS(&x, &xe, v); thread 1, once it sees the new value, takes xe over and stores into it.  2 x 1 only.
+# casro: compare-exchange that can only succeed (object = expected = new value) with `expected` (roe) in
+#        memory no store may touch: a store on the success path is a violation even if it stores the same value.
 ALL_OPS = list(OPS_ASSIGN) + list(OPS_INCDEC) + list(OPS_FETCH) + OPS_OTHER
 KINDS = ["global", "ptr", "member", "pmember", "elem"]
 SHAPES = [(2, 1), (2, 2), (3, 1)]           # threads x repetitions
@@ -41,7 +45,7 @@ def c_unit(w, sg, kind):
     ptype = "struct S *" if kind == "pmember" else "_Atomic T *"
     src = ["#include <stdatomic.h>", "typedef %s T;" % T,
            "struct S { char pad; _Atomic T x; T after; };",
-           "_Atomic T g; struct S s; _Atomic T arr[4]; T cnt;"]
+           "_Atomic T g; struct S s; _Atomic T arr[4]; T cnt; T xe; T roe;"]
     # sensitivity control: the same update through a non-atomic lvalue (must lose updates)
     src.append("long f_ctl(%sp, long v, long e) { T *q; q = (T *)&g; *q += v; return 0; }" % ptype)
     for op in ALL_OPS:
@@ -59,6 +63,10 @@ def c_unit(w, sg, kind):
                 "strong" if op == "cas" else "weak", lv)
         elif op == "casinc":
             body = "T o; T n; o = %s; do { n = o + v; } while (!atomic_compare_exchange_weak(&%s, &o, n)); return 0;" % (lv, lv)
+        elif op == "casx":
+            body = "if (e) { if (%s == (T)e) { xe = v; return 1; } return 0; } return atomic_compare_exchange_strong(&%s, &xe, v);" % (lv, lv)
+        elif op == "casro":
+            body = "int r; r = atomic_compare_exchange_strong(&%s, &roe, v); return (long)roe * 2 + r;" % lv
         elif op == "lock":
             body = "while (atomic_exchange(&%s, 1)) ; cnt = cnt + v; %s = 0; return 0;" % (lv, lv)
         src.append(head + " " + body + " }")
@@ -84,25 +92,33 @@ def op_values(op, w, sg, nt, reps):
             # `+=` gets operands of both signs so that the object can return to an earlier value (ABA)
             V[t, k] = dict(add=(i // 2 + 1) * (1 if i % 2 == 0 else -1) if base == op else i + 1, sub=i + 1, mul=i + 2, div=i + 2, mod=i + 7, **{"and": 127 - (1 << i), "or": 1 << i, "xor": 1 << i},
                            shl=1, shr=1, preinc=1, predec=1, postinc=1, postdec=1, xchg=10 + i, cas=10 + i, casw=10 + i,
-                           casinc=i + 1, lock=i + 1)[base]
+                           casinc=i + 1, lock=i + 1, casx=0, casro=7)[base]
     unsigned_small = (not sg) and w <= 2
     top = 250 if w == 1 else 65530
     init = dict(add=top if unsigned_small else 5, sub=3 if unsigned_small else (2 if sg else 100), mul=3, div=120, mod=100,
                 **{"and": 127, "or": 0, "xor": 85}, shl=1, shr=64,
                 preinc=(top + 4 if w == 1 else 65534) if unsigned_small else 5, postinc=5,
                 predec=1 if unsigned_small else (1 if sg else 100), postdec=50,
-                xchg=7, cas=7, casw=7, casinc=5, lock=0)[base]
+                xchg=7, cas=7, casw=7, casinc=5, lock=0, casx=7, casro=7)[base]
     E = {}
     for t in range(nt):
         for k in range(reps):
             E[t, k] = 7 if k == 0 else V[t, 0]
     if op == "lock":
         init = 0
+    if op == "casx":             # thread 0: producer (e = 0) publishes 10; thread 1: consumer waits for 10, stores 99 into xe
+        V = {(t, k): (10 if t == 0 else 99) for t in range(nt) for k in range(reps)}
+        E = {(t, k): (0 if t == 0 else 10) for t in range(nt) for k in range(reps)}
+        init = 7
+    if op == "casro":            # object = expected = new value = 7: every compare-exchange succeeds
+        V = {(t, k): 7 for t in range(nt) for k in range(reps)}
+        E = {(t, k): 7 for t in range(nt) for k in range(reps)}
+        init = 7
     return init, V, E
 
 
 def opk_of(op):
-    return {"casw": "cas"}.get(op, op[4:] if op.startswith("mix_") else op)
+    return {"casw": "cas", "casro": "cas"}.get(op, op[4:] if op.startswith("mix_") else op)
 
 
 def canon(w, x):
@@ -148,13 +164,24 @@ def build_case(unit, fname, w, sg, kind, op, nt, reps):
         for i in range(w):
             shared[obj + i] = 0
         keep += [[objaddr + i, 0] for i in range(w)]
-    touched = set(range(objaddr, objaddr + w)) | set(range(obj, obj + w))
+    aux, ro, tinit = 0, [], canon(w, init)
+    if op == "casx":                            # the shared expected object starts equal to the atomic object
+        aux = symaddr["xe"]
+        for i, b in enumerate(le_bytes(init, w)):
+            shared[aux + i] = b
+        tinit = dict(m=canon(w, init), x=canon(w, init))
+    if op == "casro":
+        aux = symaddr["roe"]
+        for i, b in enumerate(le_bytes(init, w)):
+            shared[aux + i] = b
+        ro = list(range(aux, aux + w))
+    touched = set(range(objaddr, objaddr + w)) | set(range(obj, obj + w)) | (set(range(aux, aux + w)) if op == "casx" else set())
     keep += [[x, v] for x, v in sorted(shared.items()) if x not in touched]      # every other byte keeps its value
     name = "w%d%s-%s-%s-%dx%d" % (w, "s" if sg else "u", kind, op, nt, reps)
     return dict(name=name, code=code, nt=nt, reps=reps, ss=frame + 96,
                 args=[[[rdi, V[t, k], E[t, k]] for k in range(reps)] for t in range(nt)],
                 shared=[[x, v] for x, v in sorted(shared.items())], obj=obj, w=w, sg=1 if sg else 0,
-                opk=opk_of(op), mix=1 if op.startswith("mix_") else 0, init=canon(w, init), keep=keep)
+                opk=opk_of(op), mix=1 if op.startswith("mix_") else 0, init=tinit, keep=keep, aux=aux, ro=ro)
 
 
 def compile_units(ctx, tree, keys):
@@ -181,6 +208,8 @@ def domain(tier):
             for kind in KINDS:
                 for op in ALL_OPS:
                     for nt, reps in SHAPES:
+                        if op == "casx" and (nt, reps) != (2, 1):
+                            continue
                         out.append((w, sg, kind, op, nt, reps))
                 if sg:
                     for op in MIX:
@@ -191,7 +220,8 @@ def domain(tier):
 
 def always(dom):
     """small family every quick run includes completely: signed 1/2-byte objects, every op= against a sign-flipping +="""
-    return [c for c in dom if c[0] <= 2 and c[2] == "global" and c[3].startswith("mix_")]
+    return [c for c in dom if (c[0] <= 2 and c[2] == "global" and c[3].startswith("mix_"))
+            or (c[3] in ("casx", "casro") and c[1] and c[2] in ("global", "ptr") and c[5] == 1 and c[4] == 2)]
 
 
 # ------------------------------------------------------------------ TLC
@@ -251,7 +281,7 @@ def judge(ctx, cases, meta, by, tso, label):
         return t, res
     for (case, m, verdict, examples), res in vt.pmap(report, bad, workers=4):
         w, sg, kind, op, nt, reps = m["coord"]
-        sig = "atomic:%s:%s:%s" % (kind, "fetch" if op in OPS_FETCH else "op=" if (op in OPS_ASSIGN or op in OPS_INCDEC or op.startswith("mix_")) else op, verdict)
+        sig = "atomic:%s:%s:%s" % (kind, "cas" if op in ("casx", "casro") and verdict == "expected-written-on-success" else "fetch" if op in OPS_FETCH else "op=" if (op in OPS_ASSIGN or op in OPS_INCDEC or op.startswith("mix_")) else op, verdict)
         f = vt.match_finding(ctx.findings, sig)
         p = None
         if not f:
